@@ -237,7 +237,7 @@ func runC01(r *mon.Run) {
 	for l := 32; l <= 64; l++ {
 		r.Require(fmt.Sprintf("p:wide:len=%d", l))
 	}
-	r.Require("p:wide:value=0 mod p", "p:wide:max", "p:wide:zero-extended-equal", "p:wide:reduction-resonant")
+	r.Require("p:wide:value=0 mod p", "p:wide:max", "p:wide:zero-extended-equal", "p:wide:reduction-resonant", "p:wide:fold-window")
 	two192 := new(big.Int).Lsh(big.NewInt(1), 192)
 	r.Each("p/wide", r.N(6600, 200000), func(w *mon.W, i int) {
 		rng := w.Rng
@@ -297,6 +297,9 @@ func runC01(r *mon.Run) {
 		case 5: // words resonating with the reduction constant 2^256 mod p
 			src = rng.ResonantWide(l, 0x1000003d1)
 			w.Class("p:wide:reduction-resonant")
+		case 6: // the folded value lands on a carry boundary of the second / final fold
+			src = rng.FoldWindow(l, new(big.Int).Sub(oracle.Two256, m))
+			w.Class("p:wide:fold-window")
 		}
 		keep := append([]byte{}, src...)
 		v := oracle.FromBytes(src)
